@@ -208,6 +208,23 @@ PROPS = {
         trusted_base=[GO_LIBS, "go-pfcp codecs", "loopback UDP sockets", "fake BESS server"],
         assumptions=["mandatory IEs well-formed (malformed ones are C01's)"],
     ),
+    "C05": dict(
+        lean=["Upf.Props.C05"],
+        level="proof",
+        claim="For every world and request of the agent model: the pool invariant (C06) is preserved by every establishment (accepted or refused at any point) and "
+              "every deletion; the release gives back the session's address and TEIDs; an accepted deletion drops exactly the session's record; an ended "
+              "association is forgotten. Tied by T2 to the REAL agent for all five ways a session ends (deletion, association release, read timeout, heartbeat "
+              "failure, report 'context not found') after accepted and rejected requests: fake-BESS tables, pool/TEID/store occupancy through hooks, the "
+              "pfcp_sessions gauge scraped from /metrics, and more attach/detach cycles than a /29 pool has addresses.",
+        note="partial: BESS datapath (the P4 pools are C15/C04); the image refinement behind 'every entry removed' is tied by T2 (see C03). "
+             "Trusted: Lean kernel + standard axioms, hooks VerifStats, prometheus text format, timers for the timeout/heartbeat cases.",
+        rule="three configurations (plain / read timeout 1 s / heartbeat 250 ms) x rounds of: associate, 1-3 sessions (CHOOSE F-TEID + UE-IP allocation, QER shapes), "
+             "establishments refused half-way (after address/TEID acquisition), modifications rejected after their create/update step, then one way to end, "
+             "then stats; plus 20+ attach/detach cycles on a /29 pool with refused attaches; non-trivial = an accepted request or an observation",
+        trusted_base=[GO_LIBS, "go-pfcp codecs", "fake BESS server", "hook accessors (verif_hooks.go)", "OS timers"],
+        assumptions=["one address per session (the pool is keyed by SEID)"],
+        timeout={"quick": 900, "thorough": 7200},
+    ),
 }
 
 NOT_APPLICABLE = {}
